@@ -138,6 +138,10 @@ type Syn struct {
 	MultiTpl  bool // backtick strings with line breaks
 	NoScale   bool // never scale a program up
 	Scaled    bool // set by Program when it scaled the program up
+	// Dangling: keep `if (a) if (b) c; else d` shaped trees (the then-branch is
+	// brace-less and ends in an if without else, and the outer if has an else).
+	// No source text has this tree; only a programmatic tree can.
+	Dangling bool
 }
 
 func (g *Syn) leaf() *ir.Node {
@@ -338,7 +342,7 @@ func (g *Syn) Stmt(sd int, inFunc bool, d int) *ir.Node {
 		n := ir.N(ir.If, "", g.Expr(d), nil, nil)
 		n.Kids[1] = g.body(sd, inFunc, d)
 		if r.Bool("else") {
-			if n.Kids[1].K != ir.Block && EndsOpenIf(n.Kids[1]) {
+			if n.Kids[1].K != ir.Block && EndsOpenIf(n.Kids[1]) && !g.Dangling {
 				n.Kids[1] = ir.N(ir.Block, "", n.Kids[1])
 			}
 			n.Kids[2] = g.body(sd, inFunc, d)
